@@ -14,7 +14,8 @@ META = {
              "polynomial/random signals on grids made of exactly uniform stretches joined by dt "
              "jumps > 5 % (plus < 0.1 % jitter controls); non-trivial = grid has >= 1 jump and >= 1 "
              "stretch long enough for the high-order stencil, or a non-zero start value, or a "
-             "polynomial of degree >= 2 (trapezoid and exact increments differ)"),
+             "polynomial of degree >= 2 (trapezoid and exact increments differ)"
+             " A fifth of the grids start with a data gap (first interval 8-50 x the sampling step); the linearity sub-check also passes strided views and integer (millisecond tick) time axes."),
     "assumptions": [
         "stencil weights compared to exact rationals within 1e-9; polynomial exactness residual 1e-9",
         "per-step predicate only on grids of exactly uniform stretches and jumps > 5 % (sub-1 % jitter is "
